@@ -3103,9 +3103,20 @@ TSQuery *ts_query_new(
       // then optimize the matching process by skipping matching the wildcard.
       // Later, during the matching process, the query cursor will check that
       // there is a parent node, and capture it if necessary.
-      if (step->symbol == WILDCARD_SYMBOL && step->depth == 0 && !step->field) {
+      // The skipped root step is never matched against a node, so this is only
+      // done when that loses nothing: the wildcard carries no capture (it would be
+      // added after the captures of its children, out of document order, and not at
+      // all when the first child is optional) and no negated field, and the child
+      // that takes its place is not optional.
+      if (
+        step->symbol == WILDCARD_SYMBOL && step->depth == 0 && !step->field &&
+        step->capture_ids[0] == NONE && !step->negated_field_list_id
+      ) {
         QueryStep *second_step = array_get(&self->steps, start_step_index + 1);
-        if (second_step->symbol != WILDCARD_SYMBOL && second_step->depth == 1 && !second_step->is_immediate) {
+        if (
+          second_step->symbol != WILDCARD_SYMBOL && second_step->depth == 1 &&
+          !second_step->is_immediate && second_step->alternative_index == NONE
+        ) {
           wildcard_root_alternative_index = step->alternative_index;
           start_step_index += 1;
           step = second_step;
